@@ -88,11 +88,11 @@ def thr_jobs():
                      "solvers": ["z3-new", "cvc5int", "cvc5"] if pow2 else ["cvc5int", "z3-new"], "timeout": 120,
                      "tier": "" if quick else "thorough"})
     for (nm, b, r, m, f, fi, pow2, quick) in cfgs:
-        if b * f > 4:
+        if b * f > 2:
             continue
         g = dict({"bucketS": [b], "refillNs": [r], "minSec": [m], "fps": [f], "fi": [fi]})
         gq = dict(g); gq["K"] = [8 if pow2 else 6]
-        gt = dict(g); gt["K"] = [10 if pow2 else 7]
+        gt = dict(g); gt["K"] = [9 if pow2 else 7]
         jobs.append({"name": "bmc_" + nm, "pkg": "throttle", "harness": "throttle", "entry": "ZZ_T_bmc", "grid": gq, "grid_thorough": gt,
                      "solvers": ["z3-new", "cvc5int"] if pow2 else ["cvc5int", "z3-new"], "timeout": 300,
                      "tier": "" if quick else "thorough"})
@@ -113,7 +113,7 @@ THR_OUT = ["configurations outside the job grid", "ThrottledEventRecorder's D-Bu
 THR_STUBS = ["ratelimit.Clock -> harness clock handing out pre-drawn non-decreasing instants", "wrapped recorder.Recorder and ThrottledEventListener -> monitored stubs (injection interfaces)", "log.Print* -> no-op"]
 COMP_JOB = {"name": "comp", "pkg": "motion", "harness": "motion", "entry": "ZZ_C05_comp",
             "grid": {"fps": [1], "minS": [1], "maxS": [3], "prevS": [1], "T": [1], "K": [8], "bucketS": [2], "refillNs": [2**33], "fi": [2**32]},
-            "grid_thorough": {"fps": [1], "minS": [1], "maxS": [3], "prevS": [1], "T": [1, 2], "K": [11], "bucketS": [2], "refillNs": [2**33], "fi": [2**32]},
+            "grid_thorough": {"fps": [1], "minS": [1], "maxS": [3], "prevS": [1], "T": [1, 2], "K": [9], "bucketS": [2], "refillNs": [2**33], "fi": [2**32]},
             "stubs": DETECT_STUB, "noops": LOG_NOOP, "native_rewrite": DETECT_REWRITE, "timeout": 300}
 for pid in ["C05", "C06"]:
     specs[pid] = {"property": pid, "explanation": THR_EXPL, "assumptions": THR_ASSUME, "outside_claim": THR_OUT, "stubs_doc": THR_STUBS, "jobs": thr_jobs() + [COMP_JOB]}
@@ -176,13 +176,15 @@ for (W, H, e, quick) in [(3, 3, 1, True), (2, 2, 0, True), (4, 4, 1, False), (5,
     base = {"W": [W], "H": [H], "e": [e], "g": [1, 2], "F": [5]}
     baset = {"W": [W], "H": [H], "e": [e], "g": [1, 2, 3], "F": [7]}
     for nm, extra in [("border_fixed", {"DYN": [0], "CLAIM": [1], "PV": [0]}), ("border_dyn", {"DYN": [1], "CLAIM": [1], "PV": [0, 2]}), ("cold_fixed", {"DYN": [0], "CLAIM": [2], "PV": [0]})]:
+        if nm == "cold_fixed" and (W - 2 * e) * (H - 2 * e) > 4:
+            continue  # interiors above 4 pixels: the solvers do not decide the sub-threshold claim within the cap
         gq = dict(base); gq.update(extra)
         gt = dict(baset); gt.update(extra)
         c08.append(det_job(f"{nm}_{W}x{H}e{e}", "ZZ_C08_bmc", gq, gt, t, uf=True))
 specs["C08"] = {"property": "C08",
     "explanation": "Self-composition on the real motion detector (SSA->SMT): two detectors built identically are fed F frames that are equal except (claim 1) in the edge border, where both streams carry independent arbitrary values, with a fixed or a dynamic threshold, or (claim 2, fixed threshold) at interior pixels flagged 'cold' where both values are arbitrary but <= temp-thresh. Telemetry is arbitrary (FFC allowed) and shared. After every frame the detection results are asserted equal; with the dynamic threshold also tempThresh and the background interior. All thresholds, mode flags, min/max bounds and pixels are symbolic. Float operations of the dynamic threshold are encoded as uninterpreted functions: equality proved under UF holds for every interpretation. Recording boundaries are then equal because MotionProcessor consumes only the Detect bit (C01-C04 step lemmas).",
     "assumptions": COMMON_ASSUME + ["floats as uninterpreted functions (sound for 'holds'; a UF counterexample is reported only if the native replay reproduces it)"],
-    "outside_claim": ["shapes above 5x5, gap > 3, more than 7 frames", "Verbose=true debug tracker"], "stubs_doc": ["log.Print* -> no-op"], "jobs": c08}
+    "outside_claim": ["shapes above 5x5, gap > 3, more than 7 frames", "sub-threshold claim for interiors above 4 pixels (not decided within the solver cap)", "Verbose=true debug tracker"], "stubs_doc": ["log.Print* -> no-op"], "jobs": c08}
 
 c09 = []
 for (W, H, e, quick) in [(2, 2, 0, True), (3, 3, 1, True), (4, 4, 1, False)]:
@@ -210,10 +212,10 @@ c15 = [
     det_job("update", "ZZ_C15_update", {"W": [1, 2, 3], "H": [1], "e": [0], "MEAN4": [0]}, None),
     det_job("update_b", "ZZ_C15_update", {"W": [3, 4], "H": [3], "e": [1], "MEAN4": [0]}, {"W": [3, 4, 5], "H": [3, 4, 5], "e": [1], "MEAN4": [0]}),
     det_job("update_c", "ZZ_C15_update", {"W": [5], "H": [5], "e": [2], "MEAN4": [0]}, {"W": [5, 6], "H": [5], "e": [2], "MEAN4": [0]}),
-    det_job("update_mean4", "ZZ_C15_update", {"W": [2], "H": [2], "e": [0], "MEAN4": [1]}, None, "thorough", solvers=["cvc5", "z3-new", "z3"], timeout=900),
     det_job("clamp", "ZZ_C15_clamp", {}, None),
     det_job("detect1", "ZZ_C15_detect", {"W": [1], "H": [1], "e": [0]}, None),
-    det_job("detect1b", "ZZ_C15_detect", {"W": [3], "H": [3], "e": [1]}, {"W": [3, 5], "H": [3, 5], "e": [1, 2]}),
+    det_job("detect1b", "ZZ_C15_detect", {"W": [3], "H": [3], "e": [1]}, None),
+    det_job("detect1c", "ZZ_C15_detect", {"W": [5], "H": [5], "e": [2]}, None, "thorough"),
 ]
 sites = det_job("sites", "ZZ_C15_sites", {}, None)
 sites["stubs"] = SITES_STUB
@@ -227,7 +229,7 @@ c15.append(_m)
 specs["C15"] = {"property": "C15",
     "explanation": "Bounded symbolic verification of the dynamic-threshold code of motion/motion.go with SMT FloatingPoint semantics (RNE; float->uint16 conversion RTZ). Lemmas, each from an arbitrary background state (all background pixels, float32 weights >= 0, frame counters, previous-FFC flag, thresholds symbolic): (update) after updateBackground every interior background pixel is <= the new frame's pixel, equals it after an FFC or on (re)seeding (backgroundFrames 0), weights stay non-negative, every border pixel equals the nearest interior pixel, and for 1- and 2-pixel interiors the returned average is exactly sum/n; (clamp) calculateThreshold yields trunc(avg) limited to [temp-thresh-min, temp-thresh-max] for every avg in [0,65536) and every unset/set combination with min <= max; (sites) with updateBackground and calculateThreshold replaced by recording stubs, Detect changes the threshold only via calculateThreshold applied to the average returned by updateBackground in the same call, never on an FFC-affected frame or with a fixed threshold, and passes the previous-FFC flag; (detect) end-to-end cross-check for 1-pixel interiors. That the background/threshold in force are handed to the recorder at the trigger, and remembered for throttle restarts, is asserted in the C01 and C06 harnesses (labels tagged C15).",
     "assumptions": COMMON_ASSUME + ["weights are non-negative non-NaN float32 (they start at 0 and are only reset to 0 or incremented and capped)", "min <= max when both bounds are set"],
-    "outside_claim": ["exactness of the float64 mean for interiors with more than 2 pixels (the 4-pixel case is attempted in the thorough tier only); the mean is then covered by the structural 'sites' lemma plus the per-pixel lemmas", "shapes above 6x5"],
+    "outside_claim": ["exactness of the float64 mean for interiors with more than 2 pixels (the 4-pixel case was attempted with a 15 min cap per solver and does not finish); the mean is then covered by the structural 'sites' lemma plus the per-pixel lemmas", "shapes above 6x5"],
     "stubs_doc": ["sites job only: updateBackground / calculateThreshold -> recording stubs (natively: overlay rename + forwarder)", "log.Print* -> no-op"], "jobs": c15}
 
 L3 = "github.com/TheCacophonyProject/lepton3"
